@@ -24,3 +24,17 @@ chk('C09', 'exploration',
     'runtime monitoring: result vs index-arithmetic oracle on exhaustively '
     'enumerated 1-d slices and random N-d slices, icontract invariant',
     'DESIGN.md section 4 (C09)')
+chk('C05', 'exploration',
+    'Every bin of thousands of generated Student comparisons (differences '
+    'placed around the critical value, zero errors, NaN/inf on one or both '
+    'sides, alpha over ten decades, ndf None..1e6, 1-4 datasets, shapes () to '
+    '4-d) is decided independently from the exact two-sided tail '
+    '(scipy.special; mpmath at 50 digits on a sample and near the level) and '
+    'compared with oracles(), the verdict, the p-values and test_pvalue(); '
+    'four metamorphic relations (swap, 2^k rescaling, growing difference, '
+    'shrinking error) are checked on the real evaluations.',
+    'scipy.special / mpmath trusted as the law; a relative band of 1e-6 around '
+    'the level is not decided; generated values only (no proof over all floats)',
+    'runtime monitoring: independent per-bin oracle (exact tail) + metamorphic '
+    'relations over generated comparisons',
+    'DESIGN.md section 4 (C05)')
